@@ -380,6 +380,8 @@ impl KeyPair {
 				panic!("Unknown SignatureAlgorithm specified!");
 			};
 
+			let serialized_der = pkcs8_document(key, &kind)?;
+
 			Ok(KeyPair {
 				kind,
 				alg,
@@ -624,12 +626,30 @@ impl TryFrom<&PrivateKeyDer<'_>> for KeyPair {
 			(kind, alg)
 		};
 
+		#[cfg(feature = "aws_lc_rs")]
+		let serialized_der = pkcs8_document(key, &kind)?;
+		#[cfg(all(feature = "ring", not(feature = "aws_lc_rs")))]
+		let serialized_der = key.secret_der().into();
+
 		Ok(KeyPair {
 			kind,
 			alg,
-			serialized_der: key.secret_der().into(),
+			serialized_der,
 		})
 	}
+}
+
+/// The document kept for [`KeyPair::serialize_der`] and [`KeyPair::serialize_pem`] is PKCS#8, as
+/// those say: a key that arrived in its SEC1 or PKCS#1 encoding is exported again as PKCS#8.
+#[cfg(all(feature = "crypto", feature = "aws_lc_rs"))]
+fn pkcs8_document(key: &PrivateKeyDer<'_>, kind: &KeyPairKind) -> Result<Vec<u8>, Error> {
+	use aws_lc_rs::encoding::AsDer;
+	Ok(match (key, kind) {
+		(PrivateKeyDer::Pkcs8(_), _) => key.secret_der().to_vec(),
+		(_, KeyPairKind::Ec(kp)) => kp.to_pkcs8v1()._err()?.as_ref().to_vec(),
+		(_, KeyPairKind::Rsa(kp, _)) => kp.as_der()._err()?.as_ref().to_vec(),
+		_ => key.secret_der().to_vec(),
+	})
 }
 
 /// The key size used for RSA key generation
